@@ -1478,9 +1478,9 @@ pub fn check_c17(ctx: &mut Ctx, cfg: &Cfg, how: How) {
         }
         // `write_into_unchecked` is public API too (it is what `write_into` and the compound writer delegate to, and
         // what an application that has sized its buffer itself calls): on an accepted configuration and a buffer of
-        // at least the calculated size, the bytes it reports as written are the same for every previous content and
-        // everything behind them is left alone. (The length field it writes follows the buffer's length, as documented;
-        // that is the same for every prefill and no business of this property.)
+        // at least the calculated size, the bytes it reports as written are the same for every previous content.
+        // (The length field it writes follows the buffer's length, as documented; that is the same for every prefill
+        // and no business of this property.)
         if let Some(n) = n {
             for l in [n, n + 4, n + 36] {
                 let mut bufs: Vec<Vec<u8>> = vec![];
@@ -1528,27 +1528,10 @@ pub fn check_c17(ctx: &mut Ctx, cfg: &Cfg, how: How) {
                     );
                     break;
                 }
-                let mut stop = false;
-                for k in 0..3 {
-                    let mut exp = vec![0u8; l];
-                    prefill(k, &mut exp);
-                    if bufs[k][m..] != exp[m..] {
-                        let d = (m..l).find(|&i| bufs[k][i] != exp[i]).unwrap_or(m);
-                        ctx.violate(
-                            "bytes-beyond-n-untouched",
-                            kind,
-                            "unchecked-beyond-n",
-                            case,
-                            format!("bytes at and after {m} (what write_into_unchecked returned; buffer {l}) keep their previous contents"),
-                            format!("byte {d} changed from {:#04x} to {:#04x}", exp[d], bufs[k][d]),
-                        );
-                        stop = true;
-                        break;
-                    }
-                }
-                if stop {
-                    break;
-                }
+                // No "bytes behind them untouched" clause here: the unchecked writer is handed the buffer as *the packet*
+                // ("uses the length of the buffer for the length field"), so a writer that clears its whole slice first
+                // is within its contract (benign change refactors-utils-bye-writer does exactly that). That clause is
+                // owed by `write_into`, which is what hands the writer an exact slice - judged above.
             }
         }
         ctx.nontrivial(hash_of(cfg));
